@@ -90,7 +90,7 @@ def obs_code(o, tok):
 
 
 def run(chk):
-    res = vlib.prove(chk, [], ['theories/VmApi.vo'], 'C10', ['theories/VmApi.v'])
+    res = vlib.prove(chk, ['ApiFx'], ['theories/VmApi.vo', 'theories/ApiFx.vo', 'gen/ApiFx.vo'], 'C10', ['theories/VmApi.v', 'theories/ApiFxProofs.v'])
     found = False
     if res['model_ok']:
         binary = vlib.harness_build('debug')
